@@ -163,6 +163,35 @@ def harness(tier, seed):
                     viol.append((f"coordinates/{ewt}", {"points": pts, "text": txt}, f"loaded {got} TSPLIB95 {want}"))
             except Exception as ex:
                 viol.append((f"coordinates/{ewt}", {"points": pts}, repr(ex)))
+    # --- EUC_2D with decimal coordinates whose exact distance from the first city is k + 0.5 (scaled Pythagorean triples):
+    # the prescribed nint(sqrt(xd*xd + yd*yd)) in plain double arithmetic decides these one way; a "more accurate" norm
+    # (hypot, fsum, decimal) can decide them the other way
+    half = []
+    for m_ in range(2, 60):
+        for n_ in range(1, m_):
+            if (m_ - n_) % 2 == 1 and math.gcd(m_, n_) == 1:
+                for k_ in (1, 3, 5, 7):
+                    x_, y_, z_ = (m_ * m_ - n_ * n_) * k_, 2 * m_ * n_ * k_, (m_ * m_ + n_ * n_) * k_
+                    if z_ % 10 == 5 and z_ < 30000:
+                        a_, b_ = x_ / 10, y_ / 10
+                        if nint(math.sqrt(a_ * a_ + b_ * b_)) != nint(math.hypot(a_, b_)) or len(half) % 7 == 0:
+                            half.append((a_, b_))
+    for lo_ in range(0, len(half), 24):
+        pts = [(0, 0)] + half[lo_:lo_ + 24]
+        n = len(pts)
+        txt = ["NAME: half", "TYPE: TSP", f"DIMENSION: {n}", "EDGE_WEIGHT_TYPE: EUC_2D", "NODE_COORD_SECTION"] + \
+              [f"{k + 1} {p[0]} {p[1]}" for k, p in enumerate(pts)] + ["EOF"]
+        want = [[0 if i == j else d_euc(pts[i], pts[j]) for j in range(n)] for i in range(n)]
+        try:
+            got = np.array(ti._from_stream(iter(txt), lambda _: 0)).tolist()
+            evals += 1
+            distinct.add(("EUC_2D-half", tuple(pts)))
+            if got != want:
+                bad = [(i, j) for i in range(n) for j in range(n) if got[i][j] != want[i][j]][0]
+                viol.append(("coordinates/EUC_2D", {"points": [pts[bad[0]], pts[bad[1]]], "text": txt},
+                             f"cities {bad[0] + 1} and {bad[1] + 1}: loaded {got[bad[0]][bad[1]]}, TSPLIB95 {want[bad[0]][bad[1]]}"))
+        except Exception as ex:
+            viol.append(("coordinates/EUC_2D", {"points": pts}, repr(ex)))
     # --- shipped optimal tours: exhaustive over the data
     ntours = 0
     for name in list_resource_tours():
